@@ -134,6 +134,34 @@ func (v ValSpec) Bytes() []byte {
 			b = binary.LittleEndian.AppendUint16(b, u)
 		}
 		return append(b, 0, 0)
+	case "stalesizedb":
+		// a hash database as a caller's hand-assembled object encodes it: the first list's SignatureListSize field is out of step
+		// with its content (4 too many). The library's encoders write the size fields of an object as they are.
+		w := v
+		w.Kind = "hashdb"
+		b := append([]byte(nil), w.Bytes()...)
+		if len(b) >= 20 {
+			binary.LittleEndian.PutUint32(b[16:], binary.LittleEndian.Uint32(b[16:])+4)
+		}
+		return b
+	case "maskfirst":
+		out := le32(uint32(v.Tag))
+		for len(out) < v.N {
+			out = append(out, byte(len(out)*3+1))
+		}
+		return out
+	case "str2":
+		// a string variable with more bytes behind its terminator (a reused buffer, a second string): the value is the first string
+		w := v
+		w.Kind = "str"
+		b := w.Bytes()
+		for _, u := range utf16.Encode([]rune(fmt.Sprintf("stale-%d", v.Tag))) {
+			b = binary.LittleEndian.AppendUint16(b, u)
+		}
+		if v.Tag%2 == 0 {
+			b = append(b, 0, 0)
+		}
+		return b
 	case "bootorder_odd":
 		// a BootOrder value with a stray byte behind the last entry (firmware has been seen to do it)
 		w := v
@@ -511,6 +539,9 @@ func (e *fstraceEngine) Gen(seed uint64, tier string, run int) *Trace {
 					}
 				case "str":
 					val.Tag = r.Intn(100000)
+					if r.Chance(1, 3) {
+						val.Kind = "str2"
+					}
 				}
 				req := uint32(acc.v().Attributes)
 				st := &StoredSpec{Mask: req, Val: val}
@@ -665,6 +696,16 @@ var ftBlobs map[string]ftBlob
 
 func ftExec(c ftCfg, ops []ftOp, sw []Switch, x *X) {
 	ftBlobs = map[string]ftBlob{}
+	if c.Key%3 == 1 {
+		// a caller derives a vendor GUID of its own from the text of a well-known one: what it parsed is its own value
+		for _, txt := range []string{"8be4df61-93ca-11d2-aa0d-00e098032b8c", "d719b2cb-3d3a-4596-a3bc-dad00e67656f", "4a67b082-0a4c-41cf-b6c7-440b29bb8c4f"} {
+			if g := util.StringToGUID(txt); g != nil {
+				g.Data1 ^= 0x00ff00ff
+				g.Data4[7]++
+			}
+		}
+		x.Probe("caller_edits_a_parsed_guid")
+	}
 	plane := NewPlane(x)
 	mem := afero.NewMemMapFs()
 	sfs := NewSimFs(mem, plane, x)
